@@ -11,6 +11,7 @@ TRead     == IsEvent("read")     /\ RRead(E.n, E.ret, E.eq, E.bad)
 TClose    == IsEvent("close")    /\ RClose(E.ret)
 TTool     == IsEvent("tool")     /\ RToolExit(E.status, E.outEq) /\ UNCHANGED rvars
 TGetChunk == IsEvent("getchunk") /\ RGetChunk(E.fvalid, E.want, E.ret, E.eq)
+TGetCap   == IsEvent("getchunkcap") /\ RGetChunkCapped(E.want, E.ret, E.prefixOk)
 TScan     == IsEvent("scan")     /\ RScan(E.ret, E.vec, E.es)
 TValData  == IsEvent("valdata")  /\ RValidateData(E.ret, E.es)
 TSame     == IsEvent("unmodified") /\ RUnmodified(E.same)
@@ -21,7 +22,7 @@ TAbort    == IsEvent("abort") /\ RAbort
 TLead     == IsEvent("leadcall") /\ RLeadCall(E.ret, E.failed)
 
 Init == RInit /\ l = 1
-Next == TOpen \/ TRead \/ TClose \/ TTool \/ TGetChunk \/ TScan \/ TValData \/ TSame \/ TSetBase \/ TSameBase \/ TBegin \/ TAbort \/ TLead
+Next == TOpen \/ TRead \/ TClose \/ TTool \/ TGetChunk \/ TScan \/ TValData \/ TSame \/ TSetBase \/ TSameBase \/ TBegin \/ TAbort \/ TLead \/ TGetCap
 Spec == Init /\ [][Next]_tvars
 Accepted == /\ PrintT(<<"MATCHED", TLCGet("stats").diameter - 1, Len(TraceLog)>>)
             /\ TLCGet("stats").diameter - 1 = Len(TraceLog)
